@@ -227,7 +227,8 @@ def render_case(c, res, step, limit):
     strs = coq_list([coq_bytes(bytes.fromhex(x)) for x in res.get("strs", [])])
     return ("{| sc_step := %d; sc_limit := %d; sc_tab := %s; sc_tmpl := %s; sc_strs := %s; sc_script := %s; "
             "sc_expect := %s; sc_hyp := %s |}") % (
-        step, limit, coq_list(tab), tmpl, strs, coq_list([coq_xev(e) for e in c["script"]]),
+        step, limit, coq_list(tab), tmpl, strs,
+        coq_list([coq_xev(e) for e in c["script"] if e[0] not in ("hg", "wp")]),
         coq_list(exp), coq_list([nat(k) for k in c.get("hyp", [])]))
 
 
@@ -267,7 +268,7 @@ def script_summary(script):
     out = []
     for e in script:
         if e[0] == "a":
-            out.append("a%d:%r" % (e[1], bytes.fromhex(e[2])))
+            out.append("a%d:%r" % (e[1], bytes.fromhex(e[2])[:400]))
         else:
             out.append("".join(str(x) for x in e))
     return out
@@ -319,6 +320,28 @@ def run_cases(ck, cases, step, limit, per_shard=60):
         ck.notes.append("harness binary overridden by ZV_SERVER_BIN=%s" % binname)
     results = ck.harness_run(binname, cases)
     ck.ran_correspondence = True
+    # logging must not change behaviour: the same cases with tracing disabled (no subscriber; the default
+    # run has a subscriber that enables every level, so every log argument is evaluated) give the same results
+    quiet = ck.harness_run(binname, cases, args="notrace")
+    n_log = 0
+    for c, r, r0 in zip(cases, results, quiet):
+        if n_log < 3 and (r.get("polls"), r.get("panic"), r.get("why")) != (r0.get("polls"), r0.get("panic"), r0.get("why")):
+            n_log += 1
+            ck.violation("Server::run behaves differently with logging enabled (every level) and disabled: %s [%s]"
+                         % ((r.get("why") or r0.get("why") or "the traces differ")[:160], c.get("tag", "")),
+                         {"case": c, "with_logging": pretty_trace(r) if "polls" in r else r,
+                          "without_logging": pretty_trace(r0) if "polls" in r0 else r0,
+                          "script": script_summary(c["script"])}, tag="log%d" % c["id"])
+    ck.cov["runs_with_and_without_logging_compared"] = len(cases)
+    # the server must not go to sleep while something it could act on is immediately available
+    n_sleep = 0
+    for c, r in zip(cases, results):
+        if r.get("sleeps") and n_sleep < 5:
+            n_sleep += 1
+            ck.violation("Server::run returned Pending although it could make progress (nothing would wake it): %s [%s]"
+                         % ("; ".join(r["sleeps"][:3]), c.get("tag", "")),
+                         {"case": c, "impl_trace": pretty_trace(r), "script": script_summary(c["script"])},
+                         tag="sleep%d" % c["id"])
     items = []
     n_panic = 0
     for c, r in zip(cases, results):
@@ -338,7 +361,9 @@ def run_cases(ck, cases, step, limit, per_shard=60):
     except RuntimeError as e:
         ck.violation("model evaluation failed: " + str(e)[:300], {"log": str(e)}, tag="eval", no_input=True)
         bad = {}
-    return [(c, r, bad.get(i, 0)) for i, (c, r) in enumerate(items)]
+    # cases with suspension points (Service::handle / reply writes pending for some polls) are outside the
+    # model's assumptions: for them only the per-connection sequential reference is compared (bit 1)
+    return [(c, r, bad.get(i, 0) & (2 if c.get("spec_only") else 3)) for i, (c, r) in enumerate(items)]
 
 
 def show_model(ck, c, r, step, limit):
